@@ -24,7 +24,7 @@ EXPLANATION = ('theorems C20_* (coq/props/C20.v) hold for every f, every list of
                'exactly once (trace = rows needing evaluation, NoDup). The C20_dict_output_* companions state the same for functions with named outputs (a row is recomputed iff some output has no supplied cache or the expiry is not in the past). The correspondence ties the model to _item / join / _value_output / _dict_output on every run.')
 TRUSTED = ['modelled, not verified: _item column selection, dictable * and / (their meaning is C02), dictable.sort, Dict.__getitem__(callable) / kwargs_support',
            'today is not modelled: expiries are 2000-01-01 / 2999-01-01 / None']
-ASSUMPTIONS = ['every table input carries all `on` columns and has unique keys; `on` has 1 or 2 columns, in any order, with names before / between / after the value column names; "sorted by key" = lexicographic by cmp in the order of `on`',
+ASSUMPTIONS = ['a table input carries all `on` columns, or - stream `partial` - only one of two (behaviour documented in join\'s docstring, outside the literal property text: pinned by the model pjoinP / perdictP, an oracle written from _join_dictable_with_defaults\' docstring, and C20_partial_keys_defaults_step); unique keys; `on` has 1 or 2 columns, in any order, with names before / between / after the value column names; "sorted by key" = lexicographic by cmp in the order of `on`',
                'with defaults=None f\'s own keyword defaults are the join defaults (documented), with a dict ({} included) only its entries; input tables must come back unchanged except the column renames= copies into the caller\'s table; constant defaults, if_none=False, output_is_input=True, include_inputs=False; both a plain function (_value_output) and a function with .output (_dict_output)',
                'when the join is empty the call returns the supplied data (or None) instead of an empty table: observed and modelled, not judged by the oracle']
 EXHAUSTIVE = {'quick': False, 'thorough': False}
@@ -90,7 +90,10 @@ def second_case(case):
     return c2
 def coq_key(k): return '[' + '; '.join(coq_cell(c) for c in k) + ']'
 def coq_rows(rows): return '[%s]' % '; '.join('(%s, %s)' % (coq_key(k), coq_pv(v)) for k, v in rows)
-def coq_runner(case): return 'run_pjoin' if case.get('kind') == 'pjoin' else 'run_perdictN' if case.get('outputs') else 'run_perdict2' if case.get('again') else 'run_perdict'
+def is_partial(case): return any('mask' in a for a in case['args'])
+def coq_runner(case):
+    if is_partial(case): return 'run_pjoinP' if case.get('kind') == 'pjoin' else 'run_perdictP'
+    return 'run_pjoin' if case.get('kind') == 'pjoin' else 'run_perdictN' if case.get('outputs') else 'run_perdict2' if case.get('again') else 'run_perdict'
 def coq_case(case):
     if case.get('again'):
         return '(%s, %s)' % (coq_case(dict(case, again=None)), coq_case(second_case(resolved(case))))
@@ -112,6 +115,9 @@ def coq_case(case):
     if x is None: xs = 'XAbsent'
     elif 'scalar' in x: xs = '(XScalar %s)' % E[x['scalar']]
     else: xs = '(XTable [%s])' % '; '.join('(%s, %s)' % (coq_key(k), E[e]) for k, e in x['rows'])
+    if is_partial(case):
+        masks = [a.get('mask') or [1] * len(case['on']) for a in case['args']]
+        return '[%s]' % '; '.join('([%s], %s)' % ('; '.join('true' if m else 'false' for m in mk), t) for mk, t in zip(masks, args))
     if case.get('kind') == 'pjoin': return '[%s]' % '; '.join(args)
     return '([%s], %s, %s)' % ('; '.join(args), dat, xs)
 
@@ -250,6 +256,151 @@ def expected(case):
         rows.append((c, args, runs, [m.get(c) if m is not None else None for m in cmaps]))
     return 'table', rows
 
+# ------------------------------------------------------------------ partially keyed inputs (an input carrying only some of the `on` columns)
+def p_tables(case):
+    """every table input as (columns it carries, rows [(key dict, value dict)]) in plain python"""
+    on = case['on']; out = []
+    for a in case['args']:
+        if a['kind'] != 'table': continue
+        mask = a.get('mask') or [1] * len(on)
+        cols = [c for c, m in zip(on, mask) if m]
+        rows = [({c: pykey(k)[i] for i, c in enumerate(on) if mask[i]}, {a['name']: v}) for k, v in a['rows']]
+        out.append((a, cols, rows))
+    return out
+def p_match(r1, r2): return all(cell_eq(r1[0][c], r2[0][c]) for c in r1[0] if c in r2[0])
+def p_mul(t1, t2):
+    cols = t1[0] + [c for c in t2[0] if c not in t1[0]]
+    return (cols, [(dict(b[0], **a[0]), dict(a[1], **b[1])) for a in t1[1] for b in t2[1] if p_match(a, b)])
+def p_anti(t1, t2): return [a for a in t1[1] if not any(p_match(a, b) for b in t2[1])]
+def p_outer(td1, td2):
+    """_join_dictable_with_defaults as documented: the matched rows, plus the rows of either side without partner carrying the other
+    side's defaults; a key column such a row's table does not have is None"""
+    (d1, f1), (d2, f2) = td1, td2
+    if d1 is None: return (d2, dict(f1, **f2))
+    if d2 is None: return (d1, dict(f1, **f2))
+    d = p_mul(d1, d2)
+    rows = list(d[1])
+    fill = lambda r, extra: ({c: r[0].get(c) for c in d[0]}, dict(r[1], **extra))
+    if f1: rows += [fill(r, f1) for r in p_anti(d2, d1)]
+    if f2: rows += [fill(r, f2) for r in p_anti(d1, d2)]
+    return ((d[0], rows), dict(f1, **f2))
+def expected_partial(case):
+    """[(key tuple in `on` order, args)] sorted by key: inner join of the inputs without default, full outer join among the defaulted ones,
+    defaults where a defaulted input has no row for the key, scalars broadcast"""
+    on = case['on']
+    tabs = p_tables(case)
+    nod = [(cols, rows) for a, cols, rows in tabs if eff_default(case, a) is None]
+    wd = [((cols, rows), {a['name']: eff_default(case, a)['v']}) for a, cols, rows in tabs if eff_default(case, a) is not None]
+    t1 = None
+    for t in nod: t1 = t if t1 is None else p_mul(t1, t)
+    td2 = (None, {})
+    for td in wd: td2 = p_outer(td2, td)
+    res, _ = p_outer((t1, {}), td2)
+    out = []
+    for k, v in (res[1] if res is not None else [({}, {})]):
+        args = [a['v'] if a['kind'] == 'scalar' else v.get(a['name']) for a in case['args']]
+        out.append((tuple(k.get(c) for c in on), args))
+    out.sort(key=lambda r: korder(r[0]))
+    return out
+
+def impl_partial(case):
+    on = case['on']; names = [a['name'] for a in case['args']]
+    inputs = {}; defaults = {}
+    for a in case['args']:
+        if 'default' in a: defaults[a['name']] = a['default']['v']
+        if a['kind'] == 'scalar': inputs[a['name']] = py_pv(a['v']); continue
+        mask = a.get('mask') or [1] * len(on)
+        sub = [c for c, m in zip(on, mask) if m]
+        rows = [[[k[i] for i in range(len(on)) if mask[i]], v] for k, v in a['rows']]
+        inputs[a['name']] = mk_table(sub, rows, a['name'] if a.get('layout', 'named') == 'named' else 'zz_' + a['name'], [v for _, v in rows], order=a.get('order', 0))
+    snap = snapshot(inputs)
+    exp = expected_partial(case)
+    calls = []
+    try:
+        if case.get('kind') == 'pjoin':
+            r = pjoin(inputs, on=list(on), defaults=defaults or None)
+        else:
+            def rec(key, args):
+                calls.append((key, list(args))); return fvals(case, args)[0]
+            f = eval('lambda %s: rec((%s), (%s,))' % (', '.join(names + ['%s=None' % c for c in on]), ''.join(c + ',' for c in on), ', '.join(names)), {'rec': rec})
+            r = perdictable(f, on=list(on), defaults=(defaults if case.get('defaults_mode') != 'none' else None))(**inputs)
+    except Exception as e:
+        return {'status': err_name(e), 'obs': ['ERR', err_name(e)], 'viol': '%s raised %s: %s' % (case.get('kind', 'perdictable'), type(e).__name__, str(e)[:150])}
+    bad = modified(inputs, snap)
+    viol = 'the call modified the input table(s) it was given: %s' % bad if bad else None
+    ek = [kcanon(k) for k, _ in exp]
+    if case.get('kind') == 'pjoin':
+        if not isinstance(r, dictable) or sorted(r.keys()) != sorted(on + names):
+            return {'status': 'ok', 'obs': ['ERR', 'columns'], 'viol': 'join columns %s, expected %s' % (sorted(r.keys()) if isinstance(r, dictable) else type(r).__name__, sorted(on + names))}
+        got = [(tuple(r[c][i] for c in on), [r[n][i] for n in names]) for i in range(len(r))]
+        obs = ['pjoin', [[obs_key(k), [obs_pv(v) for v in a]] for k, a in got]]
+        gk = [kcanon(k) for k, _ in got]
+        if viol is None:
+            if sorted(map(repr, zip(gk, [nargs(a) for _, a in got]))) != sorted(map(repr, zip(ek, [nargs(a) for _, a in exp]))):
+                viol = 'join of partially keyed inputs: rows (key, values) %s, expected %s (inputs without default inner-joined on the key columns they share, a defaulted input contributes its default where it has no row for the key)' % (got, exp)
+            elif gk != ek: viol = 'join rows are not sorted by key: %s' % gk
+        return {'status': 'ok', 'obs': obs, 'viol': viol}
+    trace = sorted([[obs_key(k), [obs_pv(v) for v in a]] for k, a in calls], key=JKEY)
+    if r is None:
+        res = 'None'; got = []
+    elif isinstance(r, dictable) and sorted(r.keys()) == sorted(on + ['data']):
+        got = [(tuple(r[c][i] for c in on), r['data'][i]) for i in range(len(r))]
+        res = ['table', [[obs_key(k), obs_pv(v)] for k, v in got]]
+    else:
+        return {'status': 'ok', 'obs': ['ERR', 'shape'], 'viol': 'unexpected result %r' % (r,)}
+    if viol is None:
+        want = [(kcanon(k), fvals(case, a)[0]) for k, a in exp]
+        if sorted(map(repr, [(kcanon(k), v) for k, v in got])) != sorted(map(repr, want)):
+            viol = 'partially keyed inputs: rows (key, value) %s, expected one row per joined key with f of its values: %s' % (got, [(k, fvals(case, a)[0]) for k, a in exp])
+        elif [kcanon(k) for k, _ in got] != ek: viol = 'rows are not sorted by key'
+        elif sorted(map(repr, [(kcanon(k), nargs(a)) for k, a in calls])) != sorted(map(repr, [(kcanon(k), nargs(a)) for k, a in exp])):
+            viol = 'f must be called exactly once per row with its values: calls %s, rows %s' % (calls, exp)
+    return {'status': 'ok', 'obs': [res, trace], 'viol': viol}
+
+def partial_case(rng):
+    """two key columns; some inputs carry only ONE of them (the same one for all such inputs of the case); defaults on any subset; several fine keys
+    per coarse key; row counts of the inputs coincide often"""
+    on = rng.sample(KEYNAMES, 2)
+    coarse = rng.randrange(2)                                           # the column the coarse inputs carry
+    A = rng.sample([['i', 1], ['i', 2], ['i', 3], ['s', 'x'], ['s', 'y'], None, ['f', 4]], rng.choice([2, 3, 4]))
+    B = rng.sample([['i', 1], ['i', 2], ['s', 'x'], None, ['i', 5]], rng.choice([1, 2, 3]))
+    fine_uni = [[a, b] if coarse == 0 else [b, a] for a in A for b in B]
+    n = rng.choice([2, 2, 3])
+    names = ['x', 'y', 'z'][:n]
+    kinds = ['fine'] + [rng.choice(['fine', 'coarse', 'coarse']) for _ in range(n - 1)]
+    if 'coarse' not in kinds: kinds[-1] = 'coarse'
+    rng.shuffle(kinds)
+    size = rng.choice([1, 2, 2, 3, 3])
+    args = []
+    for nm, kd in zip(names, kinds):
+        m = rng.choice([size, size, rng.randrange(0, 5)])             # coinciding row counts most of the time
+        if kd == 'fine':
+            ks = rng.sample(fine_uni, min(m, len(fine_uni)))
+            a = {'name': nm, 'kind': 'table', 'rows': [[k, rand_pv(rng)] for k in ks]}
+        else:
+            ks = rng.sample(A, min(m, len(A)))
+            a = {'name': nm, 'kind': 'table', 'mask': [1, 0] if coarse == 0 else [0, 1],
+                 'rows': [[[k, None] if coarse == 0 else [None, k], rand_pv(rng)] for k in ks]}
+        a['layout'] = rng.choice(['named', 'other']); a['order'] = rng.choice([0, 1, 2])
+        if rng.random() < 0.5: a['default'] = {'v': rand_pv(rng)}
+        args.append(a)
+    if rng.random() < 0.35 and len(A) >= 2 and len(B) >= 2:
+        # matched-row count equal to the other table's row count although some of its keys found no partner:
+        # m fine keys under ONE coarse key (defaulted input), and a coarse input with exactly m keys
+        m = min(len(B), len(A), rng.choice([2, 3]))
+        a0 = A[0]
+        fk = [[a0, b] if coarse == 0 else [b, a0] for b in B[:m]]
+        ck = A[:m]
+        fa = {'name': 'x', 'kind': 'table', 'rows': [[k, rand_pv(rng)] for k in fk], 'layout': 'named', 'order': 0, 'default': {'v': rand_pv(rng)}}
+        ca = {'name': 'y', 'kind': 'table', 'mask': [1, 0] if coarse == 0 else [0, 1], 'rows': [[[k, None] if coarse == 0 else [None, k], rand_pv(rng)] for k in ck], 'layout': 'named', 'order': 0}
+        if rng.random() < 0.3: ca['default'] = {'v': rand_pv(rng)}
+        args = [fa, ca] if rng.random() < 0.5 else [ca, fa]
+    if rng.random() < 0.3: args.append({'name': 's', 'kind': 'scalar', 'v': rand_pv(rng)})
+    case = {'stream': 'partial', 'on': on, 'args': args, 'data': None, 'expiry': None,
+            'defaults_mode': 'dict' if any('default' in a for a in args) else rng.choice(['none', 'empty'])}
+    if rng.random() < 0.5: case['kind'] = 'pjoin'
+    return case
+
 def impl_pjoin(case, inputs, defaults, renames):
     """join(inputs, on, renames, defaults) called directly: the table perdictable evaluates row by row"""
     on = case['on']; names = [a['name'] for a in case['args']]
@@ -291,6 +442,7 @@ def modified(inputs, snap, exempt=()):
     return bad
 
 def impl(case):
+    if is_partial(case): return impl_partial(case)
     case = resolved(case)
     inputs, defaults, renames = build_inputs(case)
     snap = snapshot(inputs)
@@ -314,7 +466,11 @@ def impl(case):
     src = 'lambda %s: rec((%s), (%s,))' % (', '.join(plain + ['%s=%r' % nd for nd in withd] + ['%s=None' % c for c in on]), ''.join(c + ',' for c in on), ', '.join(names))
     f = eval(src, {'rec': rec})
     if outs: f.output = list(outs)          # a function declared with named outputs: handled by _dict_output
-    p = perdictable(f, on=(on[0] if case.get('on_str') and len(on) == 1 else list(on)), defaults=defaults, renames=renames)
+    opts = {}
+    if case.get('oii'):          # output_is_input: whether f is SHOWN its previous output; must not change which rows are kept
+        first = outs[0] if outs else 'data'
+        opts['output_is_input'] = {'false': False, 'data': first, 'other': 'something_else', 'list_data': [first], 'list_other': ['zz']}[case['oii']]
+    p = perdictable(f, on=(on[0] if case.get('on_str') and len(on) == 1 else list(on)), defaults=defaults, renames=renames, **opts)
     # signature extension: the lifted function also accepts expiry and one argument per output (the previously computed values)
     spec_args = list(p.fullargspec.args)
     missing = [n for n in names + ['expiry'] + (list(outs) if outs else ['data']) if n not in spec_args]
@@ -431,6 +587,10 @@ def dcol(t, on):
 
 # ------------------------------------------------------------------ bookkeeping
 def nontrivial(case, result):
+    if is_partial(case):
+        try: exp = expected_partial(case)
+        except Exception: return False
+        return len(exp) > 0 and any(eff_default(case, a) is not None for a in case['args'])
     try: kind, exp = expected(case)
     except Exception: return False
     if kind == 'scalar': return False
@@ -455,6 +615,12 @@ def shape(case):
                                           '-' if x is None else 'xs' if 'scalar' in x else 'xt')
 def shrink(case):
     if case.get('stream') == 'seed': return
+    if is_partial(case):
+        for i, a in enumerate(case['args']):
+            if a['kind'] == 'table':
+                for j in range(len(a['rows'])):
+                    yield dict(case, args=case['args'][:i] + [dict(a, rows=a['rows'][:j] + a['rows'][j + 1:])] + case['args'][i + 1:])
+        return
     for i, a in enumerate(case['args']):
         if len(case['args']) > 1:
             yield dict(case, args=case['args'][:i] + case['args'][i + 1:])
@@ -518,6 +684,10 @@ def decorate(rng, case, force=None):
         if t:
             t[0]['pydefault'] = {'v': rand_pv(rng)}; [a.pop('default', None) for a in args]
             case['defaults_mode'] = rng.choice(['none', 'empty', 'empty'])
+    # ---- output_is_input option (True is the default), mostly where previously computed values are supplied
+    cached = case.get('data') is not None or bool(case.get('caches'))
+    if rng.random() < (0.45 if cached else 0.1):
+        case['oii'] = rng.choice(['false', 'false', 'data', 'other', 'list_data', 'list_other'])
     # ---- the same table object passed for two parameters
     tabs = [a for a in args if a['kind'] == 'table' and a.get('layout', 'named') in ('named', 'data', 'other')]
     if tabs and len(args) >= 2 and (force == 'same' or rng.random() < 0.08):
@@ -645,6 +815,8 @@ def gen_cases(rng, tier):
     q = tier == 'quick'
     cases = [rand_case(rng) for _ in range(2000 if q else 30000)]
     ex = exhaustive()
+    for _ in range(400 if q else 4000):
+        cases.append(partial_case(rng))
     for force, n in (('list', 200), ('defaults', 200), ('same', 120), ('again', 150)):
         for _ in range(n if q else 10 * n):
             c = rand_case(rng, force)
